@@ -1,4 +1,5 @@
 import MemcVerif.Proofs.Step
+import MemcVerif.Proofs.Policy
 /-!
 # C05 — expiry: items live for their TTL and never longer
 
@@ -194,6 +195,27 @@ theorem C05_never_visible_again (k : Key) (h : History) :
       (fun e he => hnm e (List.mem_cons_of_mem _ he)) hmono' t'
       (fun e he => hle e (List.mem_cons_of_mem _ he)) (hle (now, op) (List.mem_cons_self ..))
 
+/-! ## Behind the eviction policy
+
+The policy adds nothing to a lifetime: an item stored through it is stamped with the clock of the store, and is returned
+exactly until `now + ttl`, whatever the limit, the usage and the victims of the store's own eviction. -/
+
+/-- a store (no CAS) behind the policy at `now`: the item is returned at every `t` before `now + ttl` (at every `t` when
+    the TTL is 0) and is 'not found' from `now + ttl` on -/
+theorem C05_store_under_policy_deadline (p : Policy) (now t : Nat) (k : Key) (r : Record) (h : r.header.cas = 0) :
+    ((r.header.ttl = 0 ∨ t < now + r.header.ttl) →
+      ((p.set now k r).1.get t k).2 = .ok (stamp r p.inner.casId now)) ∧
+    (r.header.ttl ≠ 0 → now + r.header.ttl ≤ t →
+      ((p.set now k r).1.get t k).2 = .error .notFound ∧ ((p.set now k r).1.get t k).1.inner.mem.lookup k = none) := by
+  obtain ⟨_, hl⟩ := policy_set_cas0 p now k r h
+  constructor
+  · intro hlive
+    simp only [Policy.get]
+    exact C05_live_before_deadline _ t k _ hl (by simpa [stamp] using hlive)
+  · intro h0 hdead
+    simp only [Policy.get]
+    exact C05_dead_from_deadline _ t k _ hl (by simpa [stamp] using h0) (by simpa [stamp] using hdead)
+
 /-- non-vacuity: an expired record and a history with a delayed flush, gets, a delete and foreign stores -/
 example : (⟨[([1], ⟨⟨0, 1, 0, 5⟩, [65]⟩)], 2⟩ : MemStore).vis 5 [1] = none := by decide
 
@@ -211,3 +233,4 @@ end Memc
 #print axioms Memc.absent_stays_absent
 #print axioms Memc.invisible_step
 #print axioms Memc.C05_never_visible_again
+#print axioms Memc.C05_store_under_policy_deadline
